@@ -1,6 +1,6 @@
 (* The composed pointer-level operations of B/OpsB.v (the ones the correspondence runs on observed pointer
    graphs) preserve the representation invariant and act on the address list as stated. *)
-Require Export LruV.B.RepB LruV.B.ReallocB LruV.B.OpsB.
+Require Export LruV.B.RepB LruV.B.ReallocB LruV.B.OpsB LruV.A.OrderA.
 
 Lemma in_removelast_in {A} (c : list A) x : In x (removelast c) -> In x c.
 Proof. intros H. apply in_removelast_tl_nodup. now left. Qed.
@@ -246,4 +246,52 @@ Proof.
   - destruct pre as [|q pre]; [exists g; cbn; auto|]. cbn [app] in El. injection El as <- ->.
     destruct (bprim_RI g p HRI Hp) as (g2 & H1 & H2 & H3). rewrite Hr in H1. injection H1 as <-.
     destruct (IH H2 pre post eq_refl) as (gm & Hm & HRIm & Hsm). exists gm. cbn [bprims_run]. rewrite Hr. cbn [bind]. split; [exact Hm|]. split; [exact HRIm|]. congruence.
+Qed.
+
+(* ---------- in Layer A's own terms: remove_id, append, tail ---------- *)
+Definition absG (g : gstate) : list entry := absl (gh g) (glist g).
+
+Lemma remove_id_mid q (la lb : list entry) e : kid (ek e) = q -> ~ In q (kids la) -> remove_id q (la ++ e :: lb) = la ++ lb.
+Proof.
+  intros Hk Hn. induction la as [|x la IH]; cbn [app remove_id]; [rewrite Hk, N.eqb_refl; reflexivity|].
+  destruct (N.eqb_spec (kid (ek x)) q) as [E|]; [exfalso; apply Hn; left; exact E|]. rewrite IH; [reflexivity|]. intros H. apply Hn. now right.
+Qed.
+
+(* get / get_entry / touch / get_lru / mutate: touch_ptr of the bucket holding key q is Layer A's do_touch *)
+Theorem b_touch_is_do_touch g a g' e : RI (gh g) (gseal g) (glist g) -> In a (glist g) -> entry_at (gh g) a = Some e ->
+  NoDup (kids (absG g)) -> b_touch g a = Some g' ->
+  absG g' = remove_id (kid (ek e)) (absG g) ++ [e] /\ find_id (kid (ek e)) (absG g) = Some e.
+Proof.
+  intros HRI Hin He Hnd Hb. destruct (b_touch_RI g a HRI Hin) as (g2 & Hb2 & _ & _ & _ & l1 & l2 & El & _). rewrite Hb in Hb2. injection Hb2 as <-.
+  pose proof HRI as (Hnda & _). rewrite El in Hnda. destruct (nodup_split_notin _ _ _ _ Hnda) as (Hn1 & _ & _).
+  destruct (b_touch_abs g a g' l1 l2 e HRI Hb El Hn1 He) as [Ha Ha']. unfold absG in *. rewrite Ha in Hnd |- *. rewrite Ha'.
+  rewrite kids_app in Hnd. cbn [app kids map] in Hnd. apply NoDup_app_remove_mid in Hnd as [_ Hnq].
+  assert (Hq2 : ~ In (kid (ek e)) (kids (absl (gh g) l2))) by (intros H; apply Hnq; apply in_or_app; now left).
+  split.
+  - cbn [app]. rewrite (remove_id_mid _ _ _ e eq_refl Hq2). now rewrite <- app_assoc.
+  - cbn [app]. rewrite find_id_app_r by exact Hq2. cbn [find_id]. now rewrite N.eqb_refl.
+Qed.
+
+(* remove / remove_entry / remove_lru / remove_mru / every eviction: removal of the bucket holding key q is remove_id q *)
+Theorem b_remove_is_remove_id g a g' e : RI (gh g) (gseal g) (glist g) -> In a (glist g) -> entry_at (gh g) a = Some e ->
+  NoDup (kids (absG g)) -> b_remove g a = Some g' -> absG g' = remove_id (kid (ek e)) (absG g).
+Proof.
+  intros HRI Hin He Hnd Hb. destruct (b_remove_RI g a HRI Hin) as (g2 & Hb2 & _ & _ & _ & _ & l1 & l2 & El & _). rewrite Hb in Hb2. injection Hb2 as <-.
+  pose proof HRI as (Hnda & _). rewrite El in Hnda. destruct (nodup_split_notin _ _ _ _ Hnda) as (Hn1 & Hn2 & _).
+  unfold absG in *. rewrite (b_remove_abs g a g' l1 l2 HRI Hb El Hn1 Hn2).
+  rewrite El in Hnd |- *. rewrite absl_app, absl_cons, (absl_single _ _ _ He) in Hnd |- *. rewrite <- app_assoc in Hnd |- *. cbn [app] in Hnd |- *.
+  rewrite kids_app in Hnd. cbn [kids map] in Hnd. apply NoDup_app_remove_mid in Hnd as [_ Hnq].
+  rewrite (remove_id_mid _ _ _ e eq_refl); [reflexivity|]. intros H. apply Hnq. apply in_or_app. now left.
+Qed.
+
+(* the eviction victim: the bucket seal.prev points to is the head of the abstract list *)
+Theorem lru_is_head g a l0 : RI (gh g) (gseal g) (glist g) -> glist g = l0 ++ [a] ->
+  prevof (gh g) (gseal g) = Some a /\ exists e, entry_at (gh g) a = Some e /\ hd_error (absG g) = Some e.
+Proof.
+  intros (Hnd & Hc & _ & Hlive) El. split.
+  - rewrite El in Hc. replace (gseal g :: (l0 ++ [a]) ++ [gseal g]) with ((gseal g :: l0) ++ a :: [gseal g]) in Hc by (cbn; rewrite <- app_assoc; reflexivity).
+    apply chain_app in Hc as [_ Hc]. apply chain_cons2 in Hc as (_ & Hp & _). exact Hp.
+  - destruct (Hlive a) as (k & v & Hp); [rewrite El; apply in_or_app; right; now left|].
+    assert (He : exists e, entry_at (gh g) a = Some e) by (unfold entry_at, payof in *; destruct (gh g a) as [n|]; [|discriminate]; injection Hp as ->; eauto).
+    destruct He as [e He]. exists e. split; [exact He|]. unfold absG, absl. rewrite El, rev_app_distr. cbn [rev app entries_of]. now rewrite He.
 Qed.
